@@ -2,6 +2,7 @@ package scen
 
 import (
 	"bytes"
+	"errors"
 	"fmt"
 	"io"
 	"log"
@@ -286,14 +287,24 @@ func init() {
 				r.waitKilled()
 			})
 			var fwd bytes.Buffer
+			wcalls := 0
 			var fmu sync.Mutex
 			cfg := &plugin.ClientConfig{
-				HandshakeConfig:     plugin.HandshakeConfig{MagicCookieKey: "VK", MagicCookieValue: "vv", ProtocolVersion: 1},
-				Plugins:             plugin.PluginSet{"p": &tagPlugin{tag: "t"}},
-				RunnerFunc:          r.runnerFunc,
-				StartTimeout:        5 * time.Second,
-				Logger:              lg,
-				Stderr:              writerFunc(func(b []byte) (int, error) { fmu.Lock(); defer fmu.Unlock(); return fwd.Write(b) }),
+				HandshakeConfig: plugin.HandshakeConfig{MagicCookieKey: "VK", MagicCookieValue: "vv", ProtocolVersion: 1},
+				Plugins:         plugin.PluginSet{"p": &tagPlugin{tag: "t"}},
+				RunnerFunc:      r.runnerFunc,
+				StartTimeout:    5 * time.Second,
+				Logger:          lg,
+				Stderr: writerFunc(func(b []byte) (int, error) {
+					fmu.Lock()
+					defer fmu.Unlock()
+					wcalls++
+					if p["werr"] != "" && wcalls == atoi(p["werr"]) {
+						// the application's writer fails this one call (a full disk, a broken pipe): legal for an io.Writer
+						return 0, errors.New("write failed (injected by the application's writer)")
+					}
+					return fwd.Write(b)
+				}),
 				PluginLogBufferSize: B,
 				UnixSocketConfig:    &plugin.UnixSocketConfig{TempDir: os.Getenv("TMPDIR")},
 			}
@@ -358,7 +369,9 @@ func init() {
 				// the final line had no newline: forwarding it with or without one is "unchanged"
 				wantFwd = fwd
 			}
-			if !bytes.Equal(fwd, wantFwd) {
+			if p["werr"] != "" {
+				// a write failed: what reached the writer is the application's business; records and liveness are still judged
+			} else if !bytes.Equal(fwd, wantFwd) {
 				x.Fail("S", "bytes forwarded to Stderr differ from the lines written: got %s want %s [%s]", abbrev(fwd), abbrev(wantFwd), desc)
 			}
 			recs := x.Data["lg"].(*recLogger).pluginRecs()
@@ -451,6 +464,13 @@ func init() {
 					fs = append(fs, strconv.Itoa(i))
 				}
 				out = append(out, explore.Params{"B": B, "err": strings.Join(fs, ","), "nl": nl, "out": "", "onl": "1"})
+			}
+			// a Stderr writer that fails one call (the 1st, 2nd or 3rd): the lines after it are still logged, nothing stalls
+			for _, we := range []string{"1", "2", "3"} {
+				for a := 0; a < n; a++ {
+					out = append(out, explore.Params{"B": "64", "err": strconv.Itoa(a) + ",3," + strconv.Itoa(a), "nl": "1", "out": "", "onl": "1", "werr": we})
+				}
+				out = append(out, explore.Params{"B": "64", "err": "0,3,0", "nl": "1", "out": "200000", "onl": "1", "werr": we})
 			}
 			for _, B := range Bs {
 				for a := 0; a < n; a++ {
